@@ -13,7 +13,7 @@
    The definitions follow the code as it is AFTER the C13 fix commits
    (negative length prefixes rejected before make(), raw-ad loops stop at the
    end of the message, the ZKM secret field is read under the byte budget,
-   handshake readers use GetBytes).  The pre-fix GetString is Msg.get_lstr. *)
+   handshake readers use GetBytes).  The pre-fix GetString is get_lstr_unfixed. *)
 From Coq Require Import List NArith ZArith Lia Bool.
 From Cedar Require Import Lib.Bytes gen.Consts Model.Msg.
 Import ListNotations.
@@ -61,6 +61,14 @@ Definition r_read (r : reader) (n : N) : reader * bytes :=
 Definition get_lstr' (r : reader) : reader * mres bytes :=
   bind (get_int32 r) (fun r1 len =>
   if (len <? 0)%Z then (r1, MErr MOther) else
+  bind (ensure r1 len) (fun r2 _ =>
+  bind (r_make r2 len) (fun r3 _ =>
+  let '(r4, data) := r_read r3 (Z.to_N len) in (r4, MOk (strip_string data))))).
+
+(* the same function BEFORE fix 56f4942 (kept only as the refutation witness): the
+   sign of the prefix was never tested, so make([]byte, length) could panic *)
+Definition get_lstr_unfixed (r : reader) : reader * mres bytes :=
+  bind (get_int32 r) (fun r1 len =>
   bind (ensure r1 len) (fun r2 _ =>
   bind (r_make r2 len) (fun r3 _ =>
   let '(r4, data) := r_read r3 (Z.to_N len) in (r4, MOk (strip_string data))))).
